@@ -90,6 +90,10 @@ fn main() {
         }
     }
     ctx.rep.rule = monitors::zoo::rule_text(&prop);
+    // C03 below the generated code: hand-written constraints with mandatory (not Option-wrapped) additions
+    if prop == "C03" && shard == 0 {
+        monitors::scopeapi::c03_scope_api(&mut ctx.rep);
+    }
     let fams = families_for(&prop);
     let mine: Vec<&TypeEntry> = types.iter().filter(|e| fams.contains(&e.family.as_str())).collect();
     // single-type workloads, sharded by type id
